@@ -52,6 +52,9 @@ type sgPayer struct {
 type sgTxD struct {
 	Payer sgPayer  `json:"payer"`
 	Sets  []sgSetD `json:"sets"`
+	// history of the Transaction object before the observed VerifyTransaction: "" / "fresh" (decoded, nothing else),
+	// "queried" (GetSignatureAddresses was called on it first), "reverify" (a first VerifyTransaction ran on it)
+	Pre string `json:"pre"`
 }
 type sgMut struct {
 	Tx   sgTxD  `json:"tx"`
@@ -413,6 +416,11 @@ func sgAddrs(a []common.Address) []string {
 
 // run the real pipeline on raw bytes: decode, VerifyTransaction
 func sgVerify(raw []byte) (tx *types.Transaction, dec bool, code ontErrors.ErrCode, pan string) {
+	return sgVerifyPre(raw, "")
+}
+
+// the same with an operation on the decoded object before the observed VerifyTransaction
+func sgVerifyPre(raw []byte, pre string) (tx *types.Transaction, dec bool, code ontErrors.ErrCode, pan string) {
 	defer func() {
 		if r := recover(); r != nil {
 			pan = fmt.Sprint(r)
@@ -422,12 +430,18 @@ func sgVerify(raw []byte) (tx *types.Transaction, dec bool, code ontErrors.ErrCo
 	if err != nil {
 		return nil, false, ontErrors.ErrUnknown, ""
 	}
+	switch pre {
+	case "queried":
+		_ = tx.GetSignatureAddresses() // what the tx pool does for its sender-limit check
+	case "reverify":
+		_ = VerifyTransaction(tx)
+	}
 	return tx, true, VerifyTransaction(tx), ""
 }
 
-func sgObserve(i int, raw []byte, withExec bool) *sgObs {
+func sgObserve(i int, raw []byte, withExec bool, pre string) *sgObs {
 	o := &sgObs{I: i, Signed: []string{}, Raw: []string{}, CwFresh: []bool{}, CwVal: []bool{}}
-	tx, dec, code, pan := sgVerify(raw)
+	tx, dec, code, pan := sgVerifyPre(raw, pre)
 	o.Dec, o.Code, o.Panic = dec, int(code), pan
 	o.Acc = dec && pan == "" && code == ontErrors.ErrNoError
 	if !o.Acc {
@@ -496,7 +510,7 @@ func TestVerifSigTx(t *testing.T) {
 	out.Emit(map[string]interface{}{"meta": true, "encBad": w.encBad, "ktypes": ktl})
 	for i := range in.Txs {
 		b := w.build(&in.Txs[i])
-		out.Emit(sgObserve(i, b.raw, true))
+		out.Emit(sgObserve(i, b.raw, true, in.Txs[i].Pre))
 	}
 	rnd := vhRand()
 	sample := in.Sample
